@@ -292,7 +292,7 @@ PROPS = {
             'NOT DECIDED (the headline of C14): that no call hangs and that every operation completes within bounded time IN GENERAL; that all engine tasks terminate; behaviour at transport cut points (every byte offset x every pending operation x schedules of the four tokio tasks); that a oneshot / mpsc receiver really observes the closure (tokio); that a send released by a link detach carries the peer\'s error itself (it reports IllegalState, the peer\'s error comes with the next operation)',
             ASYNC, ENGINE]),
     'C16': dict(
-        units=['REASM', 'SENDSPLIT', 'LINK', 'LINKFLOW'], kani=[], level='proof', title='Cancel safety (custody obligations at the cancellation points of recv and send)',
+        units=['REASM', 'SENDSPLIT', 'LINK', 'LINKFLOW', 'TXNCTRL'], kani=[], level='proof', title='Cancel safety (custody obligations at the cancellation points of recv and send)',
         assumptions=[
             'DECIDED (necessary conditions, stated at the await points of the functions under contract): (recv) payload octets taken from the link channel for a delivery not yet returned are held by the receiver itself -- its reassembly buffer -- whenever the recv future can be dropped: partial deliveries are parked in ReceiverInner::incomplete_transfer (on_incomplete_transfer), and no cancellation point may be reached while a completed delivery is owned by locals only; (send) no cancellation point between consuming a link credit and queueing the first frame, nor between two frames of one delivery',
             'a cancellation point is an `.await` on a bounded-channel send (tokio mpsc; it also returns Pending when the task\'s cooperative budget is used up): the awaited calls are stand-ins carrying the obligation as a precondition, placed where the source awaits (send_transfer(..).await, self.dispose(..).await, the call of send_payload_with_transfer); that each single tokio operation (mpsc send / recv, Notify) is itself cancel safe is taken from the tokio documentation',
